@@ -23,6 +23,7 @@ fn build<'tcx>(tcx: TyCtxt<'tcx>, krate: &str) -> J {
     let mut impls = Vec::new();
     let mut traits = Vec::new();
     let mut statics = Vec::new();
+    let mut consts = Vec::new();
 
     let items = tcx.hir_crate_items(());
     for ldid in items.definitions() {
@@ -36,6 +37,21 @@ fn build<'tcx>(tcx: TyCtxt<'tcx>, krate: &str) -> J {
             DefKind::Struct | DefKind::Enum | DefKind::Union => adts.push(dump_adt(tcx, did)),
             DefKind::Impl { .. } => impls.push(dump_impl(tcx, did)),
             DefKind::Trait => traits.push(dump_trait(tcx, did)),
+            DefKind::Const { .. } | DefKind::AssocConst { .. } => {
+                let ty = tcx.type_of(did).instantiate_identity().skip_norm_wip();
+                let g = tcx.generics_of(did);
+                if g.count() == 0 && (ty.is_integral() || format!("{}", ty).contains("str")) {
+                    if let Ok(val) = tcx.const_eval_poly(did) {
+                        let c = Const::Val(val, ty);
+                        consts.push(
+                            J::obj()
+                                .set("path", J::s(tcx.def_path_str(did)))
+                                .set("ty", ty_s(ty))
+                                .set("val", J::s(format!("{}", c))),
+                        );
+                    }
+                }
+            }
             DefKind::Static { mutability, .. } => {
                 statics.push(
                     J::obj()
@@ -63,6 +79,7 @@ fn build<'tcx>(tcx: TyCtxt<'tcx>, krate: &str) -> J {
         .set("impls", J::Arr(impls))
         .set("traits", J::Arr(traits))
         .set("statics", J::Arr(statics))
+        .set("consts", J::Arr(consts))
 }
 
 fn span_j<'tcx>(tcx: TyCtxt<'tcx>, sp: Span) -> J {
